@@ -394,7 +394,7 @@ func c13Cycles(c *core.Ctx) {
 		Edges  [][]int `json:"edges"`
 		Cyclic bool    `json:"cyclic"`
 	}
-	n, cyc := 0, 0
+	n, cyc, hangs := 0, 0, 0
 	_, err = core.ReadVectors(out, func(raw json.RawMessage) error {
 		var v vec
 		if err := json.Unmarshal(raw, &v); err != nil {
@@ -429,6 +429,11 @@ func c13Cycles(c *core.Ctx) {
 		}
 		var visits int32
 		for dir := 0; dir < 2; dir++ {
+			if hangs >= 3 || (v.Cyclic && graph.CheckCycle(p) == nil) {
+				// a cyclic graph the cycle check lets through (reported above) has no leaf: its walk cannot return; and after
+				// three walks that did not return the finding is established - no point in waiting for the rest
+				continue
+			}
 			var opts []func(*graph.Options)
 			if dir == 1 {
 				opts = append(opts, graph.InReverseOrder)
@@ -443,8 +448,9 @@ func c13Cycles(c *core.Ctx) {
 			var err error
 			select {
 			case err = <-done:
-			case <-time.After(20 * time.Second):
+			case <-time.After(10 * time.Second):
 				err = errors.New("timeout")
+				hangs++
 				c.Report(core.Finding{Sig: "cycle-hang", Detail: fmt.Sprintf("walk of graph %v did not return", v.Edges), Replay: v})
 			}
 			ccErr := graph.CheckCycle(p)
